@@ -247,8 +247,8 @@ Proof. exact section_roundtrip_blanks. Qed.
    unit alignment and standardize_value, the documented differences — for ~Version of the
    copy in which VERS was substituted; the ~Other text written is the unchanged text *)
 Theorem C03_written_sections_read_back :
-  forall fmtv fmt_diff fstr fzero numeq ver wrapo m hs c ie cc tr,
-  write_sections fmtv fmt_diff fstr fzero numeq ver wrapo m = Some hs ->
+  forall fmtv fmt_diff fstr fzero numeq ver wrapo ifmt m hs c ie cc tr,
+  write_sections fmtv fmt_diff fstr fzero numeq ver wrapo ifmt m = Some hs ->
   section_ok fstr (hs_version hs) KVersion cc (hs_vers_items hs) ->
   section_ok fstr (hs_version hs) KWell cc (s_items (l_well (hs_las hs))) ->
   section_ok fstr (hs_version hs) KCurves cc (s_items (l_curves (hs_las hs))) ->
@@ -274,8 +274,8 @@ Theorem C03_reads_back_unfold : forall fstr v k c ie cc tr lines items,
                  map meta items' = map (fun it => meta (expected_item fstr k c it)) items.
 Proof. exact reads_back_unfold. Qed.
 
-Theorem C03_other_text_unchanged : forall fmtv fmt_diff fstr fzero numeq ver wrapo m hs,
-  write_sections fmtv fmt_diff fstr fzero numeq ver wrapo m = Some hs ->
+Theorem C03_other_text_unchanged : forall fmtv fmt_diff fstr fzero numeq ver wrapo ifmt m hs,
+  write_sections fmtv fmt_diff fstr fzero numeq ver wrapo ifmt m = Some hs ->
   l_other (hs_las hs) = l_other (m_las m).
 Proof. exact write_sections_other. Qed.
 
